@@ -25,6 +25,8 @@ REGISTRY = {
     'X02': 'harness.x02',
     'X03': 'harness.x03',
     'X04': 'harness.x04',
+    'X05': 'harness.x05',
+    'X06': 'harness.x06',
 }
 
 if __name__ == '__main__':
